@@ -171,7 +171,10 @@ def writes_field(body, field):
     """(bb, stmt) of assignments whose destination has projection `.field@`."""
     out = []
     pat = "." + field + "@"
+    live = body.reachable(0)
     for i, j, s in body.stmts():
+        if i not in live or body.blocks[i]["cleanup"]:
+            continue   # unwind copies of drop-and-assign
         if s["k"] == "assign" and not isinstance(s["place"], int):
             if any(isinstance(el, str) and el.startswith(pat) for el in s["place"][1:]):
                 out.append((i, s))
@@ -284,6 +287,8 @@ def slice_calls(fx, body, operand, max_nodes=400):
         seen.add(l)
         n += 1
         for (bb, idx, lhs, rhs) in body.def_sites(l):
+            if not isinstance(lhs, int):
+                continue
             if isinstance(rhs, Call):
                 out.append(rhs)
                 for a in rhs.args:
@@ -296,3 +301,71 @@ def slice_calls(fx, body, operand, max_nodes=400):
                 for p in rv_places(rhs):
                     work.append(pl_local(p))
     return out
+
+
+def slice_fields(fx, body, operand, adt_suffix="Command", max_nodes=600):
+    """Field names (of places projecting into `adt_suffix`) read anywhere in the backward slice of an operand,
+    including arguments of calls and closure bodies on the way (format! arguments included)."""
+    out = set()
+    seen = set()
+    work = [op_local(operand)] if op_place(operand) is not None else []
+
+    def note_place(p):
+        if isinstance(p, int) or p is None:
+            return
+        for el in p[1:]:
+            if isinstance(el, str) and el.startswith(".") and "@" in el and el.split("@", 1)[1].endswith(adt_suffix):
+                out.add(el[1:].split("@")[0])
+    n = 0
+    while work and n < max_nodes:
+        l = work.pop()
+        if l in seen or l is None:
+            continue
+        seen.add(l)
+        n += 1
+        for (bb, idx, lhs, rhs) in body.def_sites(l):
+            if not isinstance(lhs, int):
+                continue   # a write through a projection of l does not define l's value
+            if isinstance(rhs, Call):
+                for a in rhs.args:
+                    p = op_place(a)
+                    if p is not None:
+                        note_place(p)
+                        work.append(pl_local(p))
+                for cb in closure_bodies(fx, rhs):
+                    for x in tree(cb):
+                        for i, j, s in x.stmts():
+                            if s["k"] == "assign":
+                                for p in rv_places(s["rv"]):
+                                    note_place(p)
+            else:
+                for p in rv_places(rhs):
+                    note_place(p)
+                    work.append(pl_local(p))
+    return out
+
+
+def reach_calls(fx, entries, follow=lambda body, call: True, crates=None, stop=lambda b: False):
+    """Call-graph reachability where each call site can be vetoed (e.g. calls inside a guarded region)."""
+    seen = {}
+    work = list(entries)
+    for e in entries:
+        seen[id(e)] = e
+    while work:
+        b = work.pop()
+        if stop(b):
+            continue
+        nxt = list(b.children)
+        for c in b.calls():
+            if not follow(b, c):
+                continue
+            nxt.extend(fx.callee_bodies(c))
+            for q in c.closures + c.fnitems:
+                nxt.extend(fx.by_q.get(q, []))
+        for n in nxt:
+            if crates and n.crate.name not in crates:
+                continue
+            if id(n) not in seen:
+                seen[id(n)] = n
+                work.append(n)
+    return list(seen.values())
